@@ -15,8 +15,8 @@ from vk.gen.conformant_cm import gen_conformant, ground_fluent_keys, kstr
 from vk.recipe import instantiate_problem
 from vk.ref import seqsem
 from vk.ref.bfs_cm import Space, explore
-from vk.ref.conformant import belief_space, conformant_bfs, run_conformant, constrained_assignments, belief_goal
-from vk.ref.evalx import Interp, Unsupported, const_value, ev, UNDEF
+from vk.ref.conformant import belief_space, conformant_bfs, run_conformant, constrained_assignments
+from vk.ref.evalx import Unsupported, const_value
 from vk.ref.seqsem import OKAY, INAPP, DONTCARE
 
 PROPERTY = "C30"
@@ -47,7 +47,7 @@ ASSUMPTIONS = [
 SHARD_TIMEOUT = {"quick": 900, "thorough": 5400}
 BOUNDS = {
     "quick": dict(n=400, depth=7, joint=2500, beliefs=4000, fallback=15000, plans=40),
-    "thorough": dict(n=5000, depth=9, joint=12000, beliefs=20000, fallback=60000, plans=150),
+    "thorough": dict(n=3000, depth=9, joint=10000, beliefs=20000, fallback=60000, plans=120),
 }
 
 
@@ -134,21 +134,20 @@ def build(key):
     return dict(rec=rec, feats=feats, unc=unc, pb=pb, states=states, comp=comp, keys=keys), None
 
 
-def _entailed_by_known(pb, exprs, states, keys, params=None):
-    """Is the conjunction of exprs true in every total assignment that agrees with the literals common to all `states`?
-    (False = the conjunction holds in every state only by case reasoning.)"""
-    from itertools import product
+def _disjunctive(e, positive=True):
+    """Does e (in negation normal form) contain a disjunction?"""
+    from unified_planning.model.operators import OperatorKind as OK
 
-    known = {k: states[0][k] for k in keys if all(s.get(k) == states[0].get(k) for s in states)}
-    free = [k for k in keys if k not in known]
-    for vals in product((False, True), repeat=len(free)):
-        s = dict(known)
-        s.update(zip(free, vals))
-        I = Interp(pb, s, params or {})
-        for e in exprs:
-            if ev(e, I) is not True:
-                return False
-    return True
+    nt = e.node_type
+    if nt == OK.NOT:
+        return _disjunctive(e.arg(0), not positive)
+    if nt in (OK.AND, OK.FORALL):
+        return (not positive) or any(_disjunctive(a, positive) for a in e.args)
+    if nt in (OK.OR, OK.EXISTS):
+        return positive or any(_disjunctive(a, positive) for a in e.args)
+    if nt in (OK.IMPLIES, OK.IFF):
+        return True
+    return False
 
 
 def run_case(key, tier, res):
@@ -418,8 +417,11 @@ def completeness(b, rec, pb, cp, cspace, ospace, oidx, uniq, keys, ref, map_back
                     changed = True
         return c
 
+    furthest = [0]
+
     def construct(c, pos, trace):
         c = closure(c, trace)
+        furthest[0] = max(furthest[0], pos)
         if pos == len(ref.plan):
             return trace if cspace.goal(c) is True else None
         for ci in by_orig.get(ref.plan[pos], []):
@@ -444,19 +446,16 @@ def completeness(b, rec, pb, cp, cspace, ospace, oidx, uniq, keys, ref, map_back
     if not ex.complete:
         res.count("completeness_fallback_search_capped")
         return
-    # classify from the witness: where does the conformant plan need reasoning by cases?
-    where = []
-    for pos, ii in enumerate(ref.plan):
-        a, args = ospace.insts[ii]
-        bstates = [ospace.states[i] for i in ref.trajectory[pos]]
-        params = {p.name: v for p, v in zip(a.parameters, args)}
-        if not _entailed_by_known(pb, list(a.preconditions), bstates, keys, params):
-            where.append("precondition")
-            break
-    bstates = [ospace.states[i] for i in ref.trajectory[-1]]
-    if not _entailed_by_known(pb, list(pb.goals), bstates, keys):
-        where.append("goal")
-    mech = "incomplete:case-reasoning-over-disjunctive-" + "+".join(where) if where else "incomplete:other"
+    # classify from the witness: the step of the conformant plan (or the goal) at which the constructed compiled plan gets
+    # stuck, and whether its condition is disjunctive (DNF splitting makes every disjunct a separate action whose literals
+    # must be known individually, so a disjunction that holds in every possible state only by cases is never derivable)
+    pos = furthest[0]
+    if pos < len(ref.plan):
+        a, args = ospace.insts[ref.plan[pos]]
+        exprs, what = list(a.preconditions), "precondition"
+    else:
+        exprs, what = list(pb.goals), "goal"
+    mech = f"incomplete:disjunctive-{what}-needs-case-reasoning" if any(_disjunctive(e) for e in exprs) else f"incomplete:other:{what}"
     viol(
         mech,
         f"the reference finds the conformant plan {ospace.steps(ref.plan)} for the {len(uniq)} possible initial states, "
